@@ -16,6 +16,15 @@ CHECKS = {
 }
 
 
+def _must_fail(ctx, module, cfg, invariant):
+    """Non-vacuity of the model: a deliberately wrong variant of the specification must violate the invariant."""
+    r = ctx.tlc(module, cfg, timeout=600, workers=4, count=False)
+    if r.violated != invariant:
+        raise Infra("model sanity: %s/%s was expected to violate %s but TLC reported %s - the invariant is vacuous"
+                    % (module, cfg, invariant, r.violated or "no error"))
+    ctx.extra.setdefault("model_sanity", []).append("%s violates %s as expected" % (cfg, invariant))
+
+
 def _cfgs(ctx, module, cfgs, timeout):
     files = []
     for cfg in cfgs:
@@ -50,6 +59,9 @@ def c12(ctx, replay):
         if thorough:
             cfgs += ["MC_Solvers_thorough.cfg", "MC_Solvers_deep.cfg", "MC_Solvers_wide_thorough.cfg"]
         files = _cfgs(ctx, "MC_Solvers", cfgs, 3000)
+        if thorough:
+            # the code as found (recursive activation without the folded bias, F3) must fail C12 on the model
+            _must_fail(ctx, "MC_Solvers", "MC_Solvers_asfound.cfg", "FeedForward")
         sim = ctx.tlc("MC_Solvers", "Sim_Solvers.cfg", simulate="num=%d" % (6000 if thorough else 300), depth=60,
                       extra=["-seed", str(ctx.seed)], workers=8 if thorough else 4, timeout=2400)
         spec_must_hold(sim, "MC_Solvers/simulate")
@@ -89,6 +101,9 @@ def c13(ctx, replay):
         if thorough:
             cfgs += ["MC_Flush_thorough.cfg", "MC_Flush_td_thorough.cfg"]
         files = _cfgs(ctx, "MC_Flush", cfgs, 3000)
+        if thorough:
+            # a flush that does nothing must fail C13 on the model (histories do leave observable state behind)
+            _must_fail(ctx, "MC_Flush", "MC_Flush_noflush.cfg", "SuffixEqual")
         sim = ctx.tlc("MC_Flush", "Sim_Flush.cfg", simulate="num=%d" % (8000 if thorough else 500), depth=80,
                       extra=["-seed", str(ctx.seed)], workers=8 if thorough else 4, timeout=2400)
         spec_must_hold(sim, "MC_Flush/simulate")
